@@ -10,6 +10,8 @@
 #include <cppcms/http_response.h>
 #include <cppcms/http_context.h>
 #include <cppcms/http_file.h>
+#include <cppcms/http_content_filter.h>
+#include <sys/stat.h>
 #include <cppcms/http_cookie.h>
 #include <cppcms/mount_point.h>
 #include <cppcms/json.h>
@@ -29,6 +31,11 @@ struct Ledger {
     long count(std::string const &what, std::string const &tag_contains = "") {
         std::lock_guard<std::mutex> g(m); long n = 0;
         for (auto &e : ev) if (e.what == what && (tag_contains.empty() || e.tag.find(tag_contains) != std::string::npos)) n++;
+        return n;
+    }
+    long count_eq(std::string const &what, std::string const &tag) {
+        std::lock_guard<std::mutex> g(m); long n = 0;
+        for (auto &e : ev) if (e.what == what && e.tag == tag) n++;
         return n;
     }
     static Ledger &get() { static Ledger l; return l; }
@@ -51,6 +58,7 @@ public:
     std::unique_ptr<cppcms::service> srv;
     std::thread th;
     std::atomic<bool> running{false}, loop_returned{false};
+    std::atomic<int> started{0};
     std::string loop_exception;          // non-empty: something escaped service::run()
 
     // settings: extra JSON object text merged over the defaults; mount: called with the service before run()
@@ -82,10 +90,10 @@ public:
             try {
                 srv.reset(new cppcms::service(v));
                 mount(*srv);
-                std::atomic<int> started{0};
-                srv->after_fork([&started] { started = 1; });
+                started = 0;
+                srv->after_fork([this] { started = 1; });
                 loop_returned = false; loop_exception.clear();
-                th = std::thread([this, &started] {
+                th = std::thread([this] {
                     try { srv->run(); }
                     catch (std::exception const &e) { loop_exception = std::string("exception escaped service::run(): ") + e.what(); }
                     catch (...) { loop_exception = "unknown exception escaped service::run()"; }
@@ -185,6 +193,7 @@ struct Echo {
     std::vector<std::pair<std::string, std::string>> get, post, cookies;
     struct File { std::string name, filename, mime; long long size; std::string content; };
     std::vector<File> files;
+    bool has_filter = false; std::string filter_raw; std::vector<std::string> filter_events;   // UploadApp only
 };
 inline Echo echo_parse(std::string const &body) {
     Echo e; std::istringstream in(body); std::string line; bool z = false;
@@ -202,6 +211,8 @@ inline Echo echo_parse(std::string const &body) {
         case 'G': e.get.push_back({hx(a), hx(b)}); break;
         case 'O': e.post.push_back({hx(a), hx(b)}); break;
         case 'C': e.cookies.push_back({hx(a), hx(b)}); break;
+        case 'X': e.has_filter = true; e.filter_raw = hx(a); break;
+        case 'V': e.filter_events.push_back(hx(a)); break;
         case 'F': { Echo::File f; std::string c, sz, d; f.name = hx(a); f.filename = hx(b); ls >> c >> sz >> d; f.mime = hx(c); f.size = atoll(sz.c_str()); f.content = hx(d); e.files.push_back(f); break; }
         default: e.why = "unknown line " + vr::show(line); return e;
         }
@@ -210,5 +221,94 @@ inline Echo echo_parse(std::string const &body) {
     e.ok = true;
     return e;
 }
+
+} // namespace vs
+
+// ----------------------------------------------------------------------------------------------------------------
+// Upload application (C02, C12): asynchronous application mounted with app::content_filter; main() is called at
+// headers-ready time (request not ready: install the filter / limits named in the query string) and again when the
+// content is complete (echo + what the filter saw).  Every filter callback goes to the ledger, tagged "<filter id>|<query>".
+namespace vs {
+
+inline std::string query_param(std::string const &q, std::string const &name) {
+    size_t p = 0;
+    while (p < q.size()) {
+        size_t e = q.find('&', p); if (e == std::string::npos) e = q.size();
+        std::string kv = q.substr(p, e - p); size_t eq = kv.find('=');
+        if (eq != std::string::npos && kv.substr(0, eq) == name) return kv.substr(eq + 1);
+        p = e + 1;
+    }
+    return "";
+}
+
+struct FilterState {
+    long id; std::string tag;
+    std::string raw;                    // bytes seen by a raw filter, in order
+    std::vector<std::string> events;    // "new:<name>", "progress:<name>:<size>", "ready:<name>:<size>", "end", "error"
+    int errors = 0, ends = 0; bool error_after_end = false;
+    void ev(std::string const &e) { events.push_back(e); Ledger::get().add("filter." + e.substr(0, e.find(':')), tag); }
+};
+inline long next_filter_id() { static std::atomic<long> n{0}; return ++n; }
+
+struct RawFilter : cppcms::http::raw_content_filter {
+    FilterState st;
+    explicit RawFilter(std::string const &q) { st.id = next_filter_id(); st.tag = std::to_string(st.id) + "|" + q; }
+    void on_data_chunk(void const *d, size_t n) override { st.raw.append((char const *)d, n); st.ev("chunk:" + std::to_string(n)); }
+    void on_end_of_content() override { st.ends++; st.ev("end"); }
+    void on_error() override { st.errors++; if (st.ends) st.error_after_end = true; st.ev("error"); }
+};
+struct MpFilter : cppcms::http::multipart_filter {
+    FilterState st;
+    explicit MpFilter(std::string const &q) { st.id = next_filter_id(); st.tag = std::to_string(st.id) + "|" + q; }
+    void on_new_file(cppcms::http::file &f) override { st.ev("new:" + vr::hex(f.name())); }
+    void on_upload_progress(cppcms::http::file &f) override { st.ev("progress:" + vr::hex(f.name()) + ":" + std::to_string(f.size())); }
+    void on_data_ready(cppcms::http::file &f) override { st.ev("ready:" + vr::hex(f.name()) + ":" + std::to_string(f.size())); }
+    void on_end_of_content() override { st.ends++; st.ev("end"); }
+    void on_error() override { st.errors++; if (st.ends) st.error_after_end = true; st.ev("error"); }
+};
+struct PlainFilter : cppcms::http::basic_content_filter {
+    FilterState st;
+    explicit PlainFilter(std::string const &q) { st.id = next_filter_id(); st.tag = std::to_string(st.id) + "|" + q; }
+    void on_end_of_content() override { st.ends++; st.ev("end"); }
+    void on_error() override { st.errors++; if (st.ends) st.error_after_end = true; st.ev("error"); }
+};
+
+class UploadApp : public cppcms::application {
+public:
+    UploadApp(cppcms::service &s) : cppcms::application(s) {}
+    void main(std::string) override {
+        std::string q = request().query_string();
+        if (!request().is_ready()) {
+            Ledger::get().add("upload.headers", q);
+            std::string v;
+            if (!(v = query_param(q, "cl")).empty()) request().limits().content_length_limit(atoll(v.c_str()));
+            if (!(v = query_param(q, "ml")).empty()) request().limits().multipart_form_data_limit(atoll(v.c_str()));
+            if (!(v = query_param(q, "fm")).empty()) request().limits().file_in_memory_limit((size_t)atoll(v.c_str()));
+            if (!(v = query_param(q, "bs")).empty()) request().setbuf(atoi(v.c_str()));
+            request().limits().uploads_path(vr::env("VERIF_SCRATCH", "/verif/build/scratch/tmp") + "/uploads");
+            std::string f = query_param(q, "f");
+            if (f == "raw") request().reset_content_filter(new RawFilter(q));
+            else if (f == "mp") request().reset_content_filter(new MpFilter(q));
+            else if (f == "plain") request().reset_content_filter(new PlainFilter(q));
+            if (query_param(q, "abort") == "1") throw cppcms::http::abort_upload(403);
+            return;
+        }
+        Ledger::get().add("handler", q);
+        std::ostringstream extra;
+        cppcms::http::basic_content_filter *flt = request().content_filter();
+        FilterState *st = 0;
+        if (RawFilter *r = dynamic_cast<RawFilter *>(flt)) st = &r->st;
+        else if (MpFilter *m = dynamic_cast<MpFilter *>(flt)) st = &m->st;
+        else if (PlainFilter *p = dynamic_cast<PlainFilter *>(flt)) st = &p->st;
+        std::string body = echo_render(request());
+        body.erase(body.size() - 2);   // drop the "Z\n" terminator, re-added below
+        if (st) {
+            extra << "X x" << vr::hex(st->raw) << "\n";
+            for (auto &e : st->events) extra << "V x" << vr::hex(e) << "\n";
+        }
+        response().set_plain_text_header();
+        response().out() << body << extra.str() << "Z\n";
+    }
+};
 
 } // namespace vs
